@@ -173,6 +173,9 @@ def _config_job(job):
         return item_digests(_JOB_TERMS, after_failed_request=True)
     if kind == "variable-as-object":
         return item_digests(_JOB_TERMS, var_as_object=True)
+    if kind == "fast-clock":
+        with FastClock():
+            return item_digests(_JOB_TERMS)
     return item_digests(_JOB_TERMS, creation_order=order)
 
 
@@ -283,6 +286,40 @@ class Controlled:
                 pass
 
 
+class FastClock:
+    """Owns the clocks: while active, time.time / monotonic / perf_counter / process_time (and the _ns variants)
+    return a fake reading that advances by `step` seconds on every call.  A library whose answers depend on how long a
+    computation takes (a wall-clock limit, a timestamp in a cache key) gives different results under a clock that races
+    ahead; the unchanged library never looks at a clock."""
+
+    NAMES = ("time", "monotonic", "perf_counter", "process_time")
+
+    def __init__(self, step=10.0):
+        self.step = step
+        self.now = 1_000_000.0
+
+    def _tick(self):
+        self.now += self.step
+        return self.now
+
+    def __enter__(self):
+        import time as _time
+        self._time = _time
+        self._saved = {}
+        for n in self.NAMES:
+            self._saved[n] = getattr(_time, n)
+            setattr(_time, n, lambda self=self: self._tick())
+            ns = n + "_ns"
+            if hasattr(_time, ns):
+                self._saved[ns] = getattr(_time, ns)
+                setattr(_time, ns, lambda self=self: int(self._tick() * 1e9))
+        return self
+
+    def __exit__(self, *a):
+        for n, f in self._saved.items():
+            setattr(self._time, n, f)
+
+
 def steering_works():
     """The controlled order really reaches the code: numeric_partials_for iterates in the chosen order."""
     import smoothmath as sm
@@ -362,7 +399,7 @@ def run_c18(tier, seed):
     jobs = [("ctl", oi, order) for oi, order in enumerate(orders)]
     jobs += [("coord", k, None) for k in range(1, 24, 5 if tier != "thorough" else 1)]
     jobs += [("create", 0, co) for co in (("w", "z", "y", "x"), ("y", "w", "x", "z"), ("z", "x", "w", "y"))]
-    jobs += [("after-failed-request", 0, None), ("variable-as-object", 0, None)]
+    jobs += [("after-failed-request", 0, None), ("variable-as-object", 0, None), ("fast-clock", 0, None)]
     global _JOB_TERMS
     _JOB_TERMS = terms
     import multiprocessing as mproc
@@ -374,6 +411,8 @@ def run_c18(tier, seed):
             compare(f"set iteration order {order} + coordinate order #{k} + creation order {order[::-1]}", d)
         elif kind == "coord":
             compare(f"coordinate order #{k}", d)
+        elif kind == "fast-clock":
+            compare("every clock reading 10 s later than the previous one (time / monotonic / perf_counter / process_time)", d)
         elif kind == "variable-as-object":
             compare("variables passed as Variable objects instead of names (argument spelling)", d)
         elif kind == "after-failed-request":
